@@ -9,7 +9,7 @@
 (*          pattern) for the checks made when the response ends                                       *)
 EXTENDS LintImpl
 
-CONSTANTS MaxLen, Family, Deep
+CONSTANTS MaxLen, Family, Deep, Alpha
 
 S(v) == [ty |-> "s", v |-> v]
 B(v) == [ty |-> "b", v |-> v]
@@ -78,9 +78,12 @@ Case(env, ret, cut, script, srv) == [env |-> env, ret |-> ret, cut |-> cut, scri
 AB == B(<<97, 98>>)
 \* ---------------------------------------------------------------- Proto
 SR200 == SRa(ST200, HL(<<>>), "none")
-ProtoActs == { SR200, SRa(ST200, HL(<<H(nCL, v2)>>), "none"), SRa(ST304, HL(<<H(nETag, vQ)>>), "none"),
-               SRa(ST204, HL(<<>>), "none"), SRa(ST404, HL(<<>>), "tuple"),
-               Wa(AB), Wa(S(<<97, 98>>)), Ya(AB), Ya(B(<<>>)), Ya(S(<<97>>)), RAISEa }
+ProtoActs == IF Alpha = "small"
+             THEN { SRa(ST200, HL(<<H(nCL, v2)>>), "none"), SRa(ST304, HL(<<H(nETag, vQ)>>), "none"), SRa(ST404, HL(<<>>), "tuple"),
+                    Wa(AB), Ya(AB), Ya(S(<<97>>)), RAISEa }
+             ELSE { SR200, SRa(ST200, HL(<<H(nCL, v2)>>), "none"), SRa(ST304, HL(<<H(nETag, vQ)>>), "none"),
+                    SRa(ST204, HL(<<>>), "none"), SRa(ST404, HL(<<>>), "tuple"),
+                    Wa(AB), Wa(S(<<97, 98>>)), Ya(AB), Ya(B(<<>>)), Ya(S(<<97>>)), RAISEa }
 WellShaped(sc, c) == \A i \in 1..Len(sc) :
    /\ (sc[i].k = "Y" => i > c)
    /\ (sc[i].k = "W" => \E j \in 1..(i - 1) : sc[j].k = "SR")
@@ -88,10 +91,12 @@ WellShaped(sc, c) == \A i \in 1..Len(sc) :
 StrShaped(sc, c) == \A i \in (c + 1)..Len(sc) : sc[i].k = "Y" /\ sc[i].d.ty = "s" /\ Len(sc[i].d.v) = 1
 Srvs == IF Deep THEN {FullSrv, Srv(99, 0, FALSE), Srv(1, 1, FALSE), Srv(0, 1, FALSE), Srv(99, 2, FALSE), Srv(99, 1, TRUE), Srv(1, 0, FALSE)}
         ELSE {FullSrv, Srv(99, 0, FALSE), Srv(1, 1, TRUE)}
-Proto == { Case(GoodEnv(me), ret, c, sc, sv) :
-             me \in (IF Deep THEN {"GET", "HEAD"} ELSE {"GET"}), ret \in {"gen", "iter", "str"}, c \in 0..MaxLen,
-             sc \in SeqsUpTo(ProtoActs, MaxLen), sv \in Srvs }
-ProtoCases == { x \in Proto : x.cut <= Len(x.script) /\ WellShaped(x.script, x.cut) /\ (x.ret = "str" => StrShaped(x.script, x.cut)) }
+Methods == IF Deep THEN {"GET", "HEAD"} ELSE {"GET"}
+Shaped == { p \in SeqsUpTo(ProtoActs, MaxLen) \X (0..MaxLen) : p[2] <= Len(p[1]) /\ WellShaped(p[1], p[2]) }
+\* (not built as one set: TLC refuses sets of more than a million elements)
+ProtoInit(c) == \E p \in Shaped : \E ret \in {"gen", "iter", "str"} : \E me \in Methods : \E sv \in Srvs :
+                  /\ (ret = "str" => StrShaped(p[1], p[2]))
+                  /\ c = Case(GoodEnv(me), ret, p[2], p[1], sv)
 
 \* ---------------------------------------------------------------- SRTab
 Statuses == { ST200, ST404, ST999, STnoreason, ST2digit, ST4digit, STnospace, STlow, STalpha, STempty, STtrail, STlead, STplus,
@@ -132,16 +137,20 @@ IOTabCases == { Case(GoodEnv("GET"), "gen", 2, <<a, SR200, Ya(AB)>>, FullSrv) : 
 EndStatuses == {ST200, ST404, ST304, ST204, ST100}
 EndHeaders == { HL(<<>>), HL(<<H(nCL, v0)>>), HL(<<H(nCL, v2)>>), HL(<<H(nCL, v5)>>), HL(<<H(nCL, vAbc)>>), HL(<<H(nCT, vText)>>),
                 HL(<<H(nExp, vDate)>>), HL(<<H(nAllow, vU), H(nETag, vQ)>>), HL(<<H(nCL, v2), H(nCL, v5)>>) }
-Bodies == { <<>>, <<Ya(AB)>>, <<Wa(AB), Ya(B(<<>>))>>, <<Ya(B(<<>>))>>, <<Ya(AB), Ya(AB)>>, <<Ya(S(<<97, 98>>))>> }
-EndSrvs == {FullSrv, Srv(0, 1, FALSE), Srv(1, 1, FALSE), Srv(99, 0, FALSE), Srv(99, 2, FALSE)}
+Bodies == { <<>>, <<Ya(AB)>>, <<Wa(AB), Ya(B(<<>>))>>, <<Ya(AB), Ya(AB)>> }
+          \cup (IF Deep THEN { <<Ya(B(<<>>))>>, <<Ya(S(<<97, 98>>))>>, <<Wa(AB)>> } ELSE {})
+EndSrvs == {FullSrv, Srv(1, 1, FALSE), Srv(99, 0, FALSE)} \cup (IF Deep THEN {Srv(0, 1, FALSE), Srv(99, 2, FALSE), Srv(99, 1, TRUE)} ELSE {})
 EndTabCases == { Case(GoodEnv(me), ret, 1, <<SRa(st, hd, "none")>> \o bo, sv) :
                    me \in {"GET", "HEAD"}, ret \in {"gen", "iter"}, st \in EndStatuses, hd \in EndHeaders, bo \in Bodies, sv \in EndSrvs }
 
-AllCases == CASE Family = "proto" -> ProtoCases
-              [] Family = "srtab" -> SRTabCases
-              [] Family = "envtab" -> EnvTabCases
-              [] Family = "iotab" -> IOTabCases
-              [] Family = "endtab" -> EndTabCases
-              [] Family = "tables" -> SRTabCases \cup EnvTabCases \cup IOTabCases \cup EndTabCases
-              [] OTHER -> ProtoCases \cup SRTabCases \cup EnvTabCases \cup IOTabCases \cup EndTabCases
+Tables == CASE Family = "srtab" -> SRTabCases
+            [] Family = "envtab" -> EnvTabCases
+            [] Family = "iotab" -> IOTabCases
+            [] Family = "endtab" -> EndTabCases
+            [] Family = "proto" -> {}
+            [] OTHER -> SRTabCases \cup EnvTabCases \cup IOTabCases \cup EndTabCases
+MCInit == /\ s = S0
+          /\ \/ case \in Tables
+             \/ Family \in {"proto", "all"} /\ ProtoInit(case)
+MCSpec == MCInit /\ [][Next]_vars /\ WF_vars(Next)
 =============================================================================
